@@ -43,7 +43,9 @@ def _unquote_impl(string, only_printable=False, unsafe=None):
                 append(b)
                 append(item[2:])
         else:
-            append(b"%")
+            # NOTE: a '%' that does not start an escape must not be able to
+            # form one with what follows once the rest has been unquoted
+            append(b"%25" if unsafe is not None and b"%" in unsafe else b"%")
             append(item)
 
     return res
@@ -88,10 +90,10 @@ def unquote(string, only_printable=False, unsafe=None, normalize_space=False):
 # NOTE: to safely unquote we don't need to replace invalid character because it would
 # imply that the parsed url was invalid from the start (except for spaces)
 
-UNSAFE_FOR_AUTH_ITEM = b" @:"
-UNSAFE_FOR_PATH = b" ?#"
-UNSAFE_FOR_QUERY_ITEM = b" &=#"
-UNSAFE_FOR_FRAGMENT = b" "
+UNSAFE_FOR_AUTH_ITEM = b" @:/?#%"
+UNSAFE_FOR_PATH = b" /?#%"
+UNSAFE_FOR_QUERY_ITEM = b" &=#+%"
+UNSAFE_FOR_FRAGMENT = b" %"
 
 # NOTE: those method should only be used on parsed urls to canonicalize/normalize.
 safely_unquote_auth_item = partial(
